@@ -477,6 +477,7 @@ func (c *Ctx) checkFileAppenderSemantics(r *Report, ro *Roles, rule string) map[
 		default:
 			res[T.Obj().Name()] = true
 			if rotating {
+				res["rotating:"+T.Obj().Name()] = true
 				r.OK(key, "%d steps evaluated with one writer over a scripted clock and file system: Start and every first write after a boundary create '<name>.<yyyyMMddHHmmss>' for the time of that write with O_CREATE|O_WRONLY|O_APPEND; each line is one write into the file of its own interval, never into a closed one; when the next file cannot be created the line goes to the current file, the call returns normally and creation is tried again at the next boundary; at most two descriptors are open between calls; retention is launched with go after a rotation; Stop closes everything and can be repeated", len(steps))
 			} else {
 				r.OK(key, "%d steps evaluated: Start opens the file with O_CREATE|O_WRONLY|O_APPEND, each line is one write, Stop closes the descriptor and can be repeated", len(steps))
@@ -506,8 +507,21 @@ var _ = constant.MakeInt64
 
 // fileAppenderDecisions registers what the file-appender evaluation decides for the shape obligations.
 func fileAppenderDecisions(r *Report, ok map[string]bool) {
+	rot := ""
+	for tn := range ok {
+		if strings.HasPrefix(tn, "rotating:") {
+			rot = strings.TrimPrefix(tn, "rotating:")
+		}
+	}
 	for tn := range ok {
 		tn := tn
+		if strings.HasPrefix(tn, "rotating:") {
+			continue
+		}
+		// clauses about rotation are decided by the rotating appender's evaluation only
+		if (r.Prop == "C13" || r.Prop == "C19" || r.Prop == "C14") && tn != rot {
+			continue
+		}
 		match := func(k string) bool {
 			return strings.Contains(k, "(*"+tn+")") || strings.Contains(k, ":"+tn+".") || strings.Contains(k, ":"+tn+" ") || strings.HasSuffix(k, ":"+tn)
 		}
